@@ -4,6 +4,17 @@ from vlib import parse_val
 import searchgen as sg
 
 NEED_RG = False
+MANIFEST = dict(
+    text="Coq theorems: MultiLine::run terminates for every input, sink and matcher obeying the find_at contract (the "
+         "advance-by-one rule after an empty match), the search resumes with find_at on the WHOLE input (D6 repaired), and "
+         "the multi-line strategy is only selected when the matcher may match the terminator. The full statement "
+         "(multi_line_run = ml_ref: lines covered by the successive matches, merged blocks, inversion, context) is NOT yet "
+         "proved: it is checked on every run by model = code = executable specification (Spec/MultiLineSpec.v) on generated "
+         "cases with terminator-spanning and left-context-sensitive (anchored) needles. D6, D7 fixed.",
+    note="partial proof: the event-level theorem multiline_eq_spec is tested, not proved; trusted: Coq kernel, extraction, "
+         "driver, harness, scripted matcher mirrors",
+    technique="Coq proof (termination, strategy selection) + extracted-model/implementation/specification correspondence",
+    design="§7 C13")
 
 
 def run(ctx):
